@@ -50,6 +50,19 @@ def expression_ranges(text):
                              "value": not store and not isinstance(node, (ast.Starred, ast.Yield, ast.YieldFrom, ast.Await, ast.Slice)) and not self.in_target,
                              "binder": any(isinstance(n, (ast.Lambda, ast.ListComp, ast.SetComp, ast.DictComp, ast.GeneratorExp)) for n in ast.walk(node)),
                              "kwcall": any(isinstance(n, ast.Call) and n.keywords for n in ast.walk(node))}))
+                # the CONTENTS of a bracketed display or comprehension (everything between the brackets): not an ast node of
+                # its own, but one node of the parser under test ('a + 1, b * 2' in '[a + 1, b * 2]')
+                if isinstance(node, (ast.List, ast.Set, ast.Tuple, ast.ListComp, ast.SetComp, ast.GeneratorExp)) \
+                        and node.lineno == node.end_lineno and (not isinstance(node, (ast.List, ast.Set, ast.Tuple)) or len(node.elts) >= 2):
+                    ln_ = lines[node.lineno - 1]
+                    a_, b_ = cc(node.lineno, node.col_offset), cc(node.end_lineno, node.end_col_offset)
+                    if ln_[a_:a_ + 1] in ("(", "[", "{") and ln_[b_ - 1:b_] in (")", "]", "}"):
+                        inner = ln_[a_ + 1:b_ - 1]
+                        lead, trail = len(inner) - len(inner.lstrip()), len(inner) - len(inner.rstrip())
+                        if inner.strip():
+                            out.append((node.lineno, a_ + 1 + lead, node.end_lineno, b_ - 1 - trail,
+                                        {"pure_once": pure and isinstance(node, (ast.List, ast.Set, ast.Tuple)), "kind": "Contents", "contents": True,
+                                         "value": True, "binder": False, "kwcall": False}))
             super().generic_visit(node)
 
         def visit_Lambda(self, node):
